@@ -136,7 +136,8 @@ spec fn spec_try_from_impl(q: Q, err: Toks, pre_init: Toks, init: Toks) -> Toks 
 }
 spec fn into_body(q: Q, pre_init: Toks, init: Toks, post_init: Option<Toks>, ok: bool) -> Toks {
     match post_init {
-        Some(post) => id("let") + id("mut") + id("obj") + p(":") + q.dst + p("=") + id("Default") + p("::") + id("default") + paren(nil()) + p(";")
+        // vars(..) are bound first, whatever the form of the body [C08]
+        Some(post) => pre_init + id("let") + id("mut") + id("obj") + p(":") + q.dst + p("=") + id("Default") + p("::") + id("default") + paren(nil()) + p(";")
             + init + post + (if ok { id("Ok") + paren(id("obj")) } else { id("obj") }),
         None => pre_init + init,
     }
@@ -403,7 +404,8 @@ spec fn with_post_init<'a>(ctx: ImplContext<'a>, b: bool) -> ImplContext<'a> {
 }
 
 spec fn the_post_init<'a>(input: DataType<'a>, ctx: ImplContext<'a>) -> Option<Toks> {
-    if k_is_from(ctx.kind) { None } else { spec_post_init(input, ctx) }
+    // `return expr` replaces the whole body: no parent is poured after it [C08]
+    if k_is_from(ctx.kind) || ctx.struct_attr.quick_return is Some { None } else { spec_post_init(input, ctx) }
 }
 
 // the one impl generated for (input, ctx): trait chosen by (kind, fallible); Ok-wrapping body iff TryFrom / TryInto
@@ -424,7 +426,7 @@ spec fn spec_impl<'a>(input: DataType<'a>, ctx0: ImplContext<'a>) -> Toks {
 }
 
 //@fn expand.rs quote_trait
-//@props C04,C07,C17
+//@props C04,C07,C08,C17
 //@spec
     requires
         old(ctx).fallible ==> old(ctx).struct_attr.err_ty is Some, // #fallible-has-err_ty [C16]
